@@ -8,7 +8,7 @@ snapshot(loaded) == N(snapshot(live at save time)), path by path.
 I/O faults cannot change whether this property holds; the deciding half of the
 technique here is seeded histories + restart + reference snapshot.
 """
-from .. import builder, env, seeds, simio, snapshot  # noqa: F401
+from .. import builder, env, seeds, simio, snapshot, noise  # noqa: F401
 from ..runner import Acc
 from ..simio import Ctx, HarnessTimeout, active
 
@@ -196,6 +196,7 @@ def generate(seed, i, tier="quick"):
         for op in ops:
             if op["k"] == "set" and r.random() < 0.6:
                 op["m"] = fm
+    noise.sprinkle(r, ops)
     return {"property": PROPERTY, "world": "store", "layout": 2, "ops": ops}
 
 
